@@ -8,7 +8,7 @@ whole rectangle routine through std::sort).
 """
 import os
 
-from vp.extract import Fn
+from vp.extract import Fn, REPO
 from vp.driver import Unit, Run, VERIF, sh
 
 LEVEL = "proof"
@@ -201,8 +201,8 @@ ASSUMPTIONS = [
 
 
 # ------------------------------------------------------------------------------------------------ native stand-ins
-INC = ["-I/repo/src/Persistent_cohomology/include", "-I/repo/src/Bitmap_cubical_complex/include",
-       "-I/repo/src/common/include"]
+INC = ["-I" + REPO + "/src/Persistent_cohomology/include", "-I" + REPO + "/src/Bitmap_cubical_complex/include",
+       "-I" + REPO + "/src/common/include"]
 
 
 def _build_native(name, bdir, extra=()):
